@@ -2,12 +2,16 @@
 Monitor: every batch read result (consuming, peeking, offset-addressed) is checked for <= 2000 entries, payload sum <= budget
 unless exactly one entry, and non-empty whenever the model holds an unconsumed entry for the cursor."""
 from . import seqfam
+from ..seq import BLOCK
 
-PROFILE = {'topics': 2, 'nops': (50, 150), 'op_w': [4, 3, 7, 0.2, 0, 0, 0], 'read_w': [1, 6, 0, 1.5, 0, 1, 0.5],
-           'size_w': [6, 3, 1, 1, 0.1], 'batch_w': [5, 3, 1.5, 0.6], 'max_bytes': 120_000_000, 'aimed_budget': 0.5}
+PROFILE = {'topics': 2, 'nops': (50, 150), 'op_w': [4, 3, 7, 0.2, 0.12, 0.08, 0], 'read_w': [1, 6, 0, 1.5, 0, 1, 0.5],
+           'size_w': [6, 3, 1, 1, 0.35], 'batch_w': [5, 3, 1.5, 0.6], 'max_bytes': 160_000_000, 'aimed_budget': 0.5,
+           # the closing drain is a batch-read loop more often than elsewhere, with budgets around one block (entries larger than a block
+           # live in multi-unit blocks: a budget of one block covers less than such an entry)
+           'drain_api': ['rn', 'br', 'br'], 'drain_max': [1 << 20, 1 << 30, 4096, BLOCK, BLOCK + 4096, 2 * BLOCK]}
 KINDS = {'cap', 'budget', 'progress', 'panic', 'dead'}
 RULE = ('generated programs dominated by batch_read_for_topic with budgets from {0,1,100,255..257,..,2^63-1,2^64-1} and budgets aimed at '
-        'payload/raw sums of the next k pending entries +-1; entry sizes around 128/256 bytes, block capacity and cap-sized (2000) batches; '
+        'payload/raw sums of the next k pending entries +-1; entry sizes around 128/256 bytes, block capacity, multi-unit entries (> 10 MiB) and cap-sized (2000) batches; a few reopens / restarts; '
         'each batch read result checked for cap, budget and progress against the model cursor; non-trivial = consumed entries and a topic '
         'with >= 2 blocks; distinct = distinct op lists')
 
